@@ -848,6 +848,24 @@ def dense_mat(D, fmt="csr"):
 def _m_bmat(blocks, format=None, dtype=None):
     from .shims import _used
 
+    if len(blocks) > 1 and all(len(row) == 1 and isinstance(row[0], SymMat) for row in blocks):
+        _used("sps.bmat([[B0], [B1], ...]): one block column, blocks stacked at cumulative row offsets")
+        bs = [row[0] for row in blocks]
+        for b in bs[1:]:
+            _same_len(bs[0].nc, b.nc, "bmat block columns")
+        offs = [0]
+        for b in bs:
+            offs.append(offs[-1] + b.nr)
+        ents = [b._entry for b in bs]
+        offt = [iterm(o) for o in offs]
+
+        def entry_c(i, j):
+            r = z3.RealVal(0)
+            for k in range(len(bs) - 1, -1, -1):
+                r = z3.If(z3.And(i >= offt[k], i < offt[k + 1]), ents[k](i - offt[k], j), r)
+            return r
+
+        return SymMat(offs[-1], bs[0].nc, entry_c, format or "coo")
     _used("sps.bmat([[B0, B1, ...]]): one block row, blocks side by side at cumulative column offsets")
     if not (len(blocks) == 1 and all(isinstance(b, SymMat) for b in blocks[0])):
         raise EngineLimit("sps.bmat other than a single block row of proxies")
